@@ -279,10 +279,11 @@ def doOpDeriv (l : Line) : Option String := do
   let same := if d = op then "1" else "0"
   let lin := if d.isLinear then "1" else "0"
   let oplin := if op.isLinear then "1" else "0"
+  let axes := showNatList op.axes
   match d.call X with
-  | .error e => some s!"{showErr e} same={same} c={showRat d.c} lin={lin} oplin={oplin}"
+  | .error e => some s!"{showErr e} same={same} c={showRat d.c} lin={lin} oplin={oplin} axes={axes}"
   | .ok R =>
-    some s!"ok same={same} c={showRat d.c} lin={lin} oplin={oplin} r={showRatList ((allIdx d.sOut).map R)}"
+    some s!"ok same={same} c={showRat d.c} lin={lin} oplin={oplin} axes={axes} r={showRatList ((allIdx d.sOut).map R)}"
 
 /-- `opadjraw … data=<element of the RANGE>`: `op.adjoint(y)` without weights
 (`ROp.adjointCall`); `not-implemented` for a non-linear operator. -/
@@ -339,6 +340,46 @@ def doOffSpTol (l : Line) : Option String := do
   | .error .notContained => some "err:not-contained"
   | .error .shiftedUnchanged => some "err:shifted-unchanged"
 
+/-! ### round 5: `apply_on_boundary`, `_scale_bdry_cells` -/
+
+/-- `aob once=0|1 shape=… ax=<axis of step i> hl=<0|1> la= lb= hr=<0|1> ra= rb= data=…`: step `i`
+applies `x ↦ la·x + lb` on the left boundary of axis `ax[i]` if `hl[i] = 1`, `x ↦ ra·x + rb` on
+the right one if `hr[i] = 1`. -/
+def doAob (l : Line) : Option String := do
+  let once ← l.bool? "once"
+  let shape ← l.nats? "shape"
+  let ax ← l.nats? "ax"
+  let hl ← l.nats? "hl"
+  let la ← l.rats? "la"
+  let lb ← l.rats? "lb"
+  let hr ← l.nats? "hr"
+  let ra ← l.rats? "ra"
+  let rb ← l.rats? "rb"
+  let A ← l.rats? "data" >>= boxData shape
+  let k := ax.length
+  if hl.length ≠ k || la.length ≠ k || lb.length ≠ k || hr.length ≠ k || ra.length ≠ k ||
+      rb.length ≠ k then none
+  if ax.any (· ≥ shape.length) then none
+  let steps : List (BStep Rat) := (List.range k).map fun i =>
+    ⟨ax.getD i 0,
+     if hl.getD i 0 ≠ 0 then some (la.getD i 0, lb.getD i 0) else none,
+     if hr.getD i 0 ≠ 0 then some (ra.getD i 0, rb.getD i 0) else none⟩
+  let R := applyOnBoundary once shape (fun _ => (false, false)) steps A
+  some s!"ok r={showRatList ((allIdx shape).map R)}"
+
+/-- `scalebdry shape=… fl=<left fractions> fr=<right fractions> data=…`: `_scale_bdry_cells`
+(`scaleBdryCells`) and, as a second list, multiplication by `bdryFracProd`. -/
+def doScaleBdry (l : Line) : Option String := do
+  let shape ← l.nats? "shape"
+  let fls ← l.rats? "fl"
+  let frs ← l.rats? "fr"
+  let A ← l.rats? "data" >>= boxData shape
+  if fls.length ≠ shape.length || frs.length ≠ shape.length then none
+  let fracs := List.zip fls frs
+  let R := scaleBdryCells shape fracs A
+  let P : List Nat → Rat := fun idx => A idx * bdryFracProd 1 0 shape fracs idx
+  some s!"ok r={showRatList ((allIdx shape).map R)} w={showRatList ((allIdx shape).map P)}"
+
 def handle (l : Line) : Option String :=
   match l.op with
   | "resize" => doResize l
@@ -355,6 +396,8 @@ def handle (l : Line) : Option String :=
   | "opadjraw" => doOpAdjRaw l
   | "invoff" => doInvOff l
   | "offsptol" => doOffSpTol l
+  | "aob" => doAob l
+  | "scalebdry" => doScaleBdry l
   | _ => none
 
 def main : IO Unit := driverLoop handle
